@@ -225,7 +225,7 @@ var errnoNames = map[syscall.Errno]string{
 	syscall.ENOENT: "ENOENT", syscall.ENOTDIR: "ENOTDIR", syscall.ELOOP: "ELOOP", syscall.ENAMETOOLONG: "ENAMETOOLONG",
 	syscall.EEXIST: "EEXIST", syscall.EINVAL: "EINVAL", syscall.EBADF: "EBADF", syscall.EMFILE: "EMFILE",
 	syscall.ENOSPC: "ENOSPC", syscall.EACCES: "EACCES", syscall.ENOTEMPTY: "ENOTEMPTY", syscall.EISDIR: "EISDIR",
-	syscall.EPERM: "EPERM", syscall.EXDEV: "EXDEV", syscall.ENFILE: "ENFILE", syscall.EAGAIN: "EAGAIN",
+	syscall.EPERM: "EPERM", syscall.ENOMEM: "ENOMEM", syscall.EXDEV: "EXDEV", syscall.ENFILE: "ENFILE", syscall.EAGAIN: "EAGAIN",
 }
 
 func errnoName(err error) string {
